@@ -661,7 +661,58 @@ func runAff4(m *Model, r *RuleResult) {
 	}
 }
 
+// isLastIndexPath: the structured conditions of the path say that key is the last index of container.
+func isLastIndexPath(p *affState, key, container string) bool {
+	last := linAtom("len(" + container + ")").add(linConst(1), -1)
+	k := linAtom(key)
+	for _, c := range p.sc {
+		l, ok1 := c.l.(lin)
+		r, ok2 := c.r.(lin)
+		if !ok1 || !ok2 {
+			continue
+		}
+		if l.equal(k) && r.equal(last) {
+			switch {
+			case c.op == "<" && c.neg, c.op == "!=" && c.neg, c.op == "==" && !c.neg, c.op == ">=" && !c.neg:
+				return true
+			}
+		}
+		if r.equal(k) && l.equal(last) {
+			switch {
+			case c.op == ">" && c.neg, c.op == "!=" && c.neg, c.op == "==" && !c.neg, c.op == "<=" && !c.neg:
+				return true
+			}
+		}
+	}
+	return false
+}
+
+func finalAtom(a string) (name string, loop int, ok bool) {
+	if !strings.HasPrefix(a, "final(") {
+		return "", 0, false
+	}
+	i := strings.LastIndex(a, ")@L")
+	if i < 0 {
+		return "", 0, false
+	}
+	fmt.Sscanf(a[i+3:], "%d", &loop)
+	return a[len("final("):i], loop, true
+}
+
 func aff4On(m *Model, r *RuleResult, valignName, packName, pre string) {
+	spacingAtom := func(a string) bool { return strings.HasSuffix(a, ".NodeSpacing") }
+	// step: d == +-(elem.W + spacing)
+	isStep := func(d lin, elem string, sign float64) bool {
+		if d.k != 0 || len(d.c) != 2 || d.c[elem+".W"] != sign {
+			return false
+		}
+		for a, c := range d.c {
+			if a != elem+".W" && !(c == sign && spacingAtom(a)) {
+				return false
+			}
+		}
+		return true
+	}
 	// ---- VAlign ----
 	res := affRun(m, "internal/phase4", "", valignName)
 	if res == nil {
@@ -676,13 +727,13 @@ func aff4On(m *Model, r *RuleResult, valignName, packName, pre string) {
 			}
 		}
 		if len(res.undec) > 0 {
-			r.undecided(pre+"valign", pos, "execVerticalAlign", strings.Join(res.undec, "; "))
+			r.undecided(pre+"valign", pos, valignName, strings.Join(res.undec, "; "))
 		}
-		// placement loop: stores n.X
+		// placement loop: stores elem.X
 		var place *affLoop
 		for _, l := range res.loops {
 			for _, p := range l.paths {
-				if _, ok := storeTo(p, l.valVar+".X"); ok && l.valVar != "" {
+				if _, ok := storeTo(p, l.elem+".X"); ok && l.elem != "" {
 					place = l
 				}
 			}
@@ -690,13 +741,13 @@ func aff4On(m *Model, r *RuleResult, valignName, packName, pre string) {
 		if place == nil || place.parent == nil {
 			r.undecided(pre+"valign:placement-loop", pos, "loop storing n.X", "not found")
 		} else {
-			lay := place.parent.valVar
-			fwd := place.kind == "range" && !place.backward && place.over == lay+".Nodes"
-			chk("forward-over-layer", "nodes are placed by a forward range over layer.Nodes", fwd, "iterates "+place.over+" backward="+fmt.Sprint(place.backward))
+			lay := place.parent.elem
+			fwd := place.dir == 1 && place.full && place.container == lay+".Nodes"
+			chk("forward-over-layer", "nodes are placed by a forward iteration over all of layer.Nodes", fwd, fmt.Sprintf("iterates %s (dir %d, full %v)", place.container, place.dir, place.full))
 			var cname string
 			okStore := true
 			for _, p := range place.paths {
-				s, _ := storeTo(p, place.valVar+".X")
+				s, _ := storeTo(p, place.elem+".X")
 				v, ok := s.val.(lin)
 				if !ok || len(v.c) != 1 || v.k != 0 {
 					okStore = false
@@ -715,13 +766,7 @@ func aff4On(m *Model, r *RuleResult, valignName, packName, pre string) {
 				okStep := len(c.posts) > 0
 				for _, p := range c.posts {
 					pl, ok := p.(lin)
-					if !ok {
-						okStep = false
-						continue
-					}
-					d := pl.add(linAtom("c:"+cname), -1)
-					want := linAtom(place.valVar+".W").add(linAtom("params.NodeSpacing"), 1)
-					if !d.equal(want) {
+					if !ok || !isStep(pl.add(linAtom("c:"+cname), -1), place.elem, 1) {
 						okStep = false
 					}
 				}
@@ -730,81 +775,78 @@ func aff4On(m *Model, r *RuleResult, valignName, packName, pre string) {
 				init, ok := c.init.(lin)
 				okInit := ok && init.k == 0 && len(init.c) == 2 && init.c[lay+".W"] == -0.5
 				var mAtom string
-				for a, co := range init.c {
-					if a != lay+".W" {
-						if co == 0.5 && strings.HasPrefix(a, "final(") {
-							mAtom = a
-						} else {
-							okInit = false
+				if ok {
+					for a, co := range init.c {
+						if a != lay+".W" {
+							if co == 0.5 && strings.HasPrefix(a, "final(") {
+								mAtom = a
+							} else {
+								okInit = false
+							}
 						}
 					}
 				}
 				chk("start", "cursor starts at (M - layer.W)/2", okInit && mAtom != "", "cursor starts at "+avalString(c.init))
-				// M: max-reduction of final(layer.W) over layers, started at 0
 				okM := false
 				whyM := "M is not the final value of a loop-carried variable"
-				if mAtom != "" {
-					var mname string
-					var lid int
-					fmt.Sscanf(mAtom[strings.LastIndex(mAtom, "@L")+2:], "%d", &lid)
-					mname = mAtom[len("final("):strings.LastIndex(mAtom, ")@L")]
-					if lid < len(res.loops) {
-						ml := res.loops[lid]
-						if mc := ml.carried[mname]; mc != nil {
-							i0, isL := mc.init.(lin)
-							okM = isL && i0.isConst() && i0.k == 0 && len(mc.posts) > 0
-							whyM = "M starts at " + avalString(mc.init)
-							for _, p := range mc.posts {
-								s := avalString(p)
-								if !(strings.HasPrefix(s, "max(c:"+mname+", final("+ml.valVar+".W)@L") && strings.HasSuffix(s, ")")) {
-									okM = false
-									whyM = "M is updated as " + s + ", expected max(M, extent of the layer)"
-								}
+				if mname, lid, ok := finalAtom(mAtom); ok && lid < len(res.loops) {
+					ml := res.loops[lid]
+					if mc := ml.carried[mname]; mc != nil {
+						i0, isL := mc.init.(lin)
+						okM = isL && i0.isConst() && i0.k == 0 && len(mc.posts) > 0
+						whyM = "M starts at " + avalString(mc.init)
+						eid := -1
+						for _, p := range mc.posts {
+							s := avalString(p)
+							prefix := "max(c:" + mname + ", final(" + ml.elem + ".W)@L"
+							if !strings.HasPrefix(s, prefix) || !strings.HasSuffix(s, ")") {
+								okM = false
+								whyM = "M is updated as " + s + ", expected max(M, extent of the layer)"
+								continue
 							}
-							// extent accumulation: in the loop whose final is referenced
-							if okM {
-								var eid int
-								s := avalString(mc.posts[0])
-								fmt.Sscanf(s[strings.LastIndex(s, "@L")+2:], "%d", &eid)
-								if eid < len(res.loops) {
-									el := res.loops[eid]
-									ec := el.carried[ml.valVar+".W"]
-									okE := ec != nil && el.kind == "range" && !el.backward && el.over == ml.valVar+".Nodes"
-									whyE := "extent loop not over layer.Nodes"
-									if okE {
-										i0, isL := ec.init.(lin)
-										if !isL || !i0.isConst() || i0.k != 0 {
-											okE, whyE = false, "extent starts at "+avalString(ec.init)
-										}
-										nW, nWS := 0, 0
-										for i, p := range ec.posts {
-											pl, ok := p.(lin)
-											if !ok {
-												okE = false
-												continue
-											}
-											d := pl.add(linAtom("c:"+ml.valVar+".W"), -1)
-											switch {
-											case d.equal(linAtom(el.valVar + ".W")):
-												nW++
-												// must be on the "last node" path
-												c := strings.Join(el.paths[i].cond, " ")
-												if !strings.Contains(c, "!(("+el.keyVar+" < len("+ml.valVar+".Nodes) + -1))") {
-													okE, whyE = false, "spacing is omitted on a path that is not the last node: "+c
-												}
-											case d.equal(linAtom(el.valVar+".W").add(linAtom("params.NodeSpacing"), 1)):
-												nWS++
-											default:
-												okE, whyE = false, "extent grows by "+d.String()
-											}
-										}
-										if nW != 1 || nWS != 1 {
-											okE, whyE = false, fmt.Sprintf("extent update paths: %d with spacing, %d without", nWS, nW)
-										}
+							fmt.Sscanf(s[len(prefix):], "%d", &eid)
+						}
+						if okM && !(ml.full && strings.HasSuffix(ml.container, ".Layers")) {
+							okM, whyM = false, "M is not reduced over all layers"
+						}
+						if okM && eid >= 0 && eid < len(res.loops) {
+							el := res.loops[eid]
+							ec := el.carried[ml.elem+".W"]
+							okE := ec != nil && el.full && el.container == ml.elem+".Nodes"
+							whyE := "the extent is not accumulated over all of layer.Nodes"
+							if okE {
+								i0, isL := ec.init.(lin)
+								if !isL || !i0.isConst() || i0.k != 0 {
+									okE, whyE = false, "extent starts at "+avalString(ec.init)
+								}
+								nW, nWS := 0, 0
+								for i, p := range ec.posts {
+									pl, ok := p.(lin)
+									if !ok {
+										okE = false
+										continue
 									}
-									chk("extent", "layer.W accumulates n.W plus NodeSpacing except after the last node, from 0", okE, whyE)
+									d := pl.add(linAtom("c:"+ml.elem+".W"), -1)
+									switch {
+									case d.equal(linAtom(el.elem + ".W")):
+										nW++
+										if el.keyVar == "" || !isLastIndexPath(el.paths[i], el.keyVar, el.container) {
+											okE, whyE = false, "spacing is omitted on a path that is not the last node: "+strings.Join(el.paths[i].cond, " ")
+										}
+									case isStep(d, el.elem, 1):
+										nWS++
+										if el.keyVar != "" && isLastIndexPath(el.paths[i], el.keyVar, el.container) {
+											okE, whyE = false, "spacing is added after the last node"
+										}
+									default:
+										okE, whyE = false, "extent grows by "+d.String()
+									}
+								}
+								if nW != 1 || nWS != 1 {
+									okE, whyE = false, fmt.Sprintf("extent update paths: %d with spacing, %d without", nWS, nW)
 								}
 							}
+							chk("extent", "layer.W accumulates n.W plus NodeSpacing except after the last node, from 0", okE, whyE)
 						}
 					}
 				}
@@ -818,7 +860,7 @@ func aff4On(m *Model, r *RuleResult, valignName, packName, pre string) {
 	}
 	res = affRun(m, "internal/phase4", "", packName)
 	if res == nil {
-		r.undecided(pre+"packright", "-", "execPackRight", "not found")
+		r.undecided(pre+"packright", "-", packName, "not found")
 		return
 	}
 	pos := m.Pos(res.fd.Pos())
@@ -830,13 +872,13 @@ func aff4On(m *Model, r *RuleResult, valignName, packName, pre string) {
 		}
 	}
 	if len(res.undec) > 0 {
-		r.undecided(pre+"packright", pos, "execPackRight", strings.Join(res.undec, "; "))
+		r.undecided(pre+"packright", pos, packName, strings.Join(res.undec, "; "))
 	}
 	var place, shiftL *affLoop
 	for _, l := range res.loops {
 		for _, p := range l.paths {
-			if s, ok := storeTo(p, l.valVar+".X"); ok && l.valVar != "" {
-				if v, isL := s.val.(lin); isL && v.c[l.valVar+".X"] == 1 {
+			if s, ok := storeTo(p, l.elem+".X"); ok && l.elem != "" {
+				if v, isL := s.val.(lin); isL && v.c[l.elem+".X"] == 1 {
 					shiftL = l
 				} else {
 					place = l
@@ -848,8 +890,9 @@ func aff4On(m *Model, r *RuleResult, valignName, packName, pre string) {
 		r.undecided(pre+"packright:loops", pos, "placement loop and shift loop", "not found")
 		return
 	}
-	lay := place.parent.valVar
-	chk("backward-over-layer", "nodes are placed by a backward iteration over layer.Nodes", place.backward && place.over == lay+".Nodes", "iterates "+place.over+" backward="+fmt.Sprint(place.backward))
+	lay := place.parent.elem
+	chk("backward-over-layer", "nodes are placed by a backward iteration over all of layer.Nodes", place.dir == -1 && place.full && place.container == lay+".Nodes",
+		fmt.Sprintf("iterates %s (dir %d, full %v)", place.container, place.dir, place.full))
 	var cname string
 	for n := range place.carried {
 		cname = n
@@ -859,12 +902,11 @@ func aff4On(m *Model, r *RuleResult, valignName, packName, pre string) {
 	if okStep {
 		for i, p := range c.posts {
 			pl, ok := p.(lin)
-			want := linAtom(place.valVar+".W").add(linAtom("params.NodeSpacing"), 1).scale(-1)
-			if !ok || !pl.add(linAtom("c:"+cname), -1).equal(want) {
+			if !ok || !isStep(pl.add(linAtom("c:"+cname), -1), place.elem, -1) {
 				okStep = false
+				continue
 			}
-			// stored X equals the advanced cursor
-			s, _ := storeTo(place.paths[i], place.valVar+".X")
+			s, _ := storeTo(place.paths[i], place.elem+".X")
 			if sv, ok := s.val.(lin); !ok || !sv.equal(pl) {
 				okStep = false
 			}
@@ -878,7 +920,6 @@ func aff4On(m *Model, r *RuleResult, valignName, packName, pre string) {
 		}
 	}
 	chk("start", "every layer starts its cursor at 0 (common right end)", okInit, "cursor start differs")
-	// left bound: min-reduction of final(cursor)
 	pl := place.parent
 	okMin := false
 	var lbName string
@@ -889,23 +930,22 @@ func aff4On(m *Model, r *RuleResult, valignName, packName, pre string) {
 		}
 		good := len(lc.posts) > 0
 		for _, p := range lc.posts {
-			s := avalString(p)
-			if !strings.HasPrefix(s, "min(c:"+n+", final("+cname+")@L") {
+			if !strings.HasPrefix(avalString(p), "min(c:"+n+", final("+cname+")@L") {
 				good = false
 			}
 		}
-		if good {
+		if good && pl.full && strings.HasSuffix(pl.container, ".Layers") {
 			okMin = true
 			lbName = n
 		}
 	}
-	chk("left-bound", "the left bound is the minimum over layers of the final cursor (from 0)", okMin, "no min-reduction of the final cursor found")
+	chk("left-bound", "the left bound is the minimum over all layers of the final cursor (from 0)", okMin, "no min-reduction of the final cursor over all layers found")
 	okShift := false
 	for _, p := range shiftL.paths {
-		s, _ := storeTo(p, shiftL.valVar+".X")
-		if v, ok := s.val.(lin); ok && len(v.c) == 2 && v.c[shiftL.valVar+".X"] == 1 && v.k == 0 {
+		s, _ := storeTo(p, shiftL.elem+".X")
+		if v, ok := s.val.(lin); ok && len(v.c) == 2 && v.c[shiftL.elem+".X"] == 1 && v.k == 0 {
 			for a, co := range v.c {
-				if a != shiftL.valVar+".X" && co == -1 && strings.HasPrefix(a, "final("+lbName+")@L") {
+				if a != shiftL.elem+".X" && co == -1 && strings.HasPrefix(a, "final("+lbName+")@L") {
 					okShift = true
 				}
 			}
@@ -931,7 +971,7 @@ func aff5On(m *Model, r *RuleResult, fname, pre string) {
 	var inner *affLoop
 	for _, l := range res.loops {
 		for _, p := range l.paths {
-			if _, ok := storeTo(p, l.valVar+".Y"); ok && l.valVar != "" {
+			if _, ok := storeTo(p, l.elem+".Y"); ok && l.elem != "" {
 				inner = l
 			}
 		}
@@ -945,7 +985,7 @@ func aff5On(m *Model, r *RuleResult, fname, pre string) {
 	okInv := true
 	var yname string
 	for _, p := range inner.paths {
-		s, _ := storeTo(p, inner.valVar+".Y")
+		s, _ := storeTo(p, inner.elem+".Y")
 		v, ok := s.val.(lin)
 		if !ok || len(v.c) != 1 || v.k != 0 {
 			okInv = false
@@ -976,11 +1016,11 @@ func aff5On(m *Model, r *RuleResult, fname, pre string) {
 			continue
 		}
 		d := pl.add(linAtom("c:"+yname), -1)
-		if len(d.c) != 2 || d.k != 0 || d.c[outer.valVar+".H"] != 1 {
+		if len(d.c) != 2 || d.k != 0 || d.c[outer.elem+".H"] != 1 {
 			okStep = false
 		}
 		for a, co := range d.c {
-			if a != outer.valVar+".H" && (co != 1 || !strings.Contains(strings.ToLower(a), "layerspacing")) {
+			if a != outer.elem+".H" && (co != 1 || !strings.Contains(strings.ToLower(a), "layerspacing")) {
 				okStep = false
 			}
 		}
@@ -995,10 +1035,10 @@ func aff5On(m *Model, r *RuleResult, fname, pre string) {
 	} else {
 		r.violation(pre+"y:start", pos, "the first band is at y = 0", "y starts at "+avalString(oc.init))
 	}
-	if outer.kind == "range" && !outer.backward && strings.HasSuffix(outer.over, ".Layers") && inner.over == outer.valVar+".Nodes" {
+	if outer.dir == 1 && outer.full && strings.HasSuffix(outer.container, ".Layers") && inner.full && inner.container == outer.elem+".Nodes" {
 		r.holds(pre+"y:layer-order", pos, "bands are stacked in layer order")
 	} else {
-		r.violation(pre+"y:layer-order", pos, "bands are stacked in layer order", "iterates "+outer.over+" backward="+fmt.Sprint(outer.backward))
+		r.violation(pre+"y:layer-order", pos, "bands are stacked in layer order", fmt.Sprintf("iterates %s (dir %d, full %v) / %s (full %v)", outer.container, outer.dir, outer.full, inner.container, inner.full))
 	}
 }
 
